@@ -76,6 +76,16 @@ CHECKS = {
             "the reference evaluator's reading of the documentation; cases the documentation leaves open are counted as "
             "unasserted and only checked by implementation-relative laws",
             "DESIGN.md §3 C08"),
+    "C09": ("exploration",
+            "metamorphic relation: verdict triple equal across generated respellings, canonical text and repeated calls",
+            "Generated documents (generic ones under the packaged META/SKILL schemas; instances of generated schemas planted "
+            "on the search path) are rendered canonically, leniently and as emitted canonical text; per profile the triple "
+            "(status, error (code, field) set, warning set) must be identical across all texts through octave_validate (one "
+            "long-lived tool instance), Validator and octave_write(corrections_only); fix=false must return plain "
+            "canonicalisation and be repeatable, also after an intervening fix=true call. Sampled.",
+            "implementation compared with itself under respelling (no independent verdict needed: that is C08); parse receipts "
+            "are excluded from the triple",
+            "DESIGN.md §3 C09"),
 }
 
 NOT_YET = {
